@@ -94,6 +94,7 @@ class Volume:
 class Partition:
     volumes: List[Volume]
     sectors: int = 40
+    slots: Optional[List[int]] = None  # table slot of each volume (strictly increasing); None = 0..n-1. Other slots are inactive entries.
 
 
 @dataclass
@@ -176,7 +177,7 @@ def serialize(disc: Disc, rng, shapes=("contiguous", "reversed", "random", "sort
         pstart = len(out)
         part = bytearray(p.sectors * SECTOR)
         alloc = Allocator(rng, p.sectors)
-        ventries = bytearray()
+        ventry_list = []
         for v in p.volumes:
             # files first (their start sectors go into the directory) unless the volume asks otherwise
             entries = bytearray()
@@ -234,8 +235,13 @@ def serialize(disc: Disc, rng, shapes=("contiguous", "reversed", "random", "sort
             padded = table + bytes(nd * SECTOR - len(table))
             for k, s in enumerate(dsecs):
                 part[s * SECTOR : (s + 1) * SECTOR] = padded[k * SECTOR : (k + 1) * SECTOR]
-            ventries += akai_name(v.name) + struct.pack("<HH", 3 if v.s3000 else 1, dsecs[0])
-        ventries += (akai_name("") + struct.pack("<HH", 0, 0)) * (VOL_ENTRIES - len(p.volumes))
+            ventry_list.append(akai_name(v.name) + struct.pack("<HH", 3 if v.s3000 else 1, dsecs[0]))
+        slots = p.slots if p.slots is not None else list(range(len(p.volumes)))
+        assert len(slots) == len(p.volumes) and all(a < b for a, b in zip(slots, slots[1:])) and (not slots or slots[-1] < VOL_ENTRIES)
+        table = [akai_name("") + struct.pack("<HH", 0, 0)] * VOL_ENTRIES
+        for slot, ent in zip(slots, ventry_list):
+            table[slot] = ent
+        ventries = b"".join(table)
         header = struct.pack("<H", p.sectors) + b"\x00\x00" + MAGIC + bytes([0x55, 0xBA]) + b"\x2f\x00"
         assert len(header) == 202
         sat = b"".join(struct.pack("<H", w) for w in alloc.words)
@@ -328,5 +334,7 @@ def random_disc(rng, small=True) -> Disc:
                 rng.shuffle(files)
             vols.append(Volume(f"VOL {pi}{vi}", files, s3000=rng.random() < 0.5, dir_mode=rng.choice(["chain", "chain", "run"]), dir_sectors=rng.choice([1, 1, 2])))
         need = HEADER_SECTORS + 4 + sum(v.dir_sectors + 2 + sum(nsectors(len(f.content())) for f in v.files) for v in vols)
-        parts.append(Partition(vols, sectors=need + rng.randint(2, 12)))
+        # the volume table may have holes (deleted volumes) and need not start at slot 0
+        slots = sorted(rng.sample(range(rng.choice([len(vols) + 2, 12, VOL_ENTRIES])), len(vols))) if vols and rng.random() < 0.5 else None
+        parts.append(Partition(vols, sectors=need + rng.randint(2, 12), slots=slots))
     return Disc(parts)
